@@ -577,6 +577,43 @@ namespace
       cmd_run (a);
     else if (c == "parselen")
       cmd_parselen (a);
+    else if (c == "qrun")
+      {
+	// Like run, but with queries compiled earlier (qparse): q=<qid> [p=<qid>] [i=<init>] [lim=N]
+	long lim = a.count ("lim") ? atol (a["lim"].c_str ()) : 100000;
+	std::string why;
+	zw_stack *init = init_stack (a.count ("i") ? a["i"] : "-", why);
+	if (init == nullptr)
+	  fprintf (out, "ierr %s\n", hex (why).c_str ());
+	else
+	  {
+	    zw_query *q = queries.at (a["q"]);
+	    if (! a.count ("p"))
+	      run_on (q, init, lim);
+	    else
+	      {
+		errbox eb2;
+		zw_result *res = zw_query_execute (queries.at (a["p"]), init, &eb2.e);
+		assert (res != nullptr);
+		while (true)
+		  {
+		    zw_stack *o = nullptr;
+		    if (! zw_result_next (res, &o, &eb2.e))
+		      {
+			fprintf (out, "perr %s\n", hex (eb2.msg ()).c_str ());
+			break;
+		      }
+		    if (o == nullptr)
+		      break;
+		    fprintf (out, "g %s\n", canon_stack (*o).c_str ());
+		    run_on (q, o, lim);
+		    zw_stack_destroy (o);
+		  }
+		zw_result_destroy (res);
+	      }
+	    zw_stack_destroy (init);
+	  }
+      }
     else if (c == "dumpvoc")
       cmd_dumpvoc ();
     else if (c == "tree")
@@ -774,7 +811,7 @@ main (int argc, char **argv)
       if (track)
 	fprintf (out, "m %ld\n", delta);
       fprintf (out, ".\n");
-      if (toks[0] != "run" && toks[0] != "parselen" && toks[0] != "pull")
+      if (toks[0] != "run" && toks[0] != "qrun" && toks[0] != "parselen" && toks[0] != "pull")
 	fflush (out);
       else if (std::cin.rdbuf ()->in_avail () <= 0)
 	fflush (out);
